@@ -443,4 +443,66 @@ theorem frAll_chain : ∀ (gs : List Mig) {s : Store} (memo : Memo), FrAll s →
       · exact frAll_chain gs _ a c
       · exact a
 
+/-! ## the `taxon_namespace` setter + `update_taxon_namespace()`, matrix combination, `purge_taxon_namespace` -/
+
+theorem frAll_addTree {s : Store} (h : FrAll s) (t n : Nat) : FrAll (addTree s t n) ∧ (addTree s t n).nTaxa = s.nTaxa := by
+  simp only [addTree]
+  have := frAll_addTaxa n (s.tree t).taxa h (h.tree t)
+  simp only [addTaxa] at this
+  refine ⟨?_, this.2⟩
+  apply frAll_setTree this.1
+  intro x hx; rw [this.2]; exact h.tree t x hx
+
+theorem frAll_addTrees (n : Nat) : ∀ (ts : List Nat) {s : Store}, FrAll s → FrAll (addTrees s n ts)
+  | [], _, h => h
+  | t :: ts, _, h => by simp only [addTrees]; exact frAll_addTrees n ts (frAll_addTree h t n).1
+
+theorem frAll_addTl {s : Store} (h : FrAll s) (l n : Nat) : FrAll (addTl s l n) := by
+  simp only [addTl]
+  exact frAll_addTrees n (s.tl l).trees (frAll_of_eq h rfl rfl rfl rfl)
+
+theorem frAll_addKeys (n : Nat) : ∀ (xs : List Nat) {s : Store}, FrAll s → (∀ x, x ∈ xs → x < s.nTaxa) →
+    FrAll (xs.foldl (fun acc x => addMember acc n x) s) ∧ (xs.foldl (fun acc x => addMember acc n x) s).nTaxa = s.nTaxa
+      ∧ (xs.foldl (fun acc x => addMember acc n x) s).mat = s.mat
+  | [], _, h, _ => ⟨h, rfl, rfl⟩
+  | x :: xs, s, h, hx => by
+    simp only [List.foldl_cons]
+    obtain ⟨a, b⟩ := frAll_addMember h n x (hx x (by simp))
+    obtain ⟨a2, b2, c2⟩ := frAll_addKeys n xs a (fun x' hx' => by rw [b]; exact hx x' (by simp [hx']))
+    refine ⟨a2, by rw [b2, b], ?_⟩
+    rw [c2]
+    unfold addMember
+    split <;> rfl
+
+theorem frAll_addMat {s : Store} (h : FrAll s) (m n : Nat) : FrAll (addMat s m n) := by
+  simp only [addMat]
+  obtain ⟨a, b, c⟩ := frAll_addKeys n (s.mat m).keys h (h.mat m)
+  apply frAll_setMat a m
+  intro x hx
+  rw [b]; exact h.mat m x hx
+
+theorem frAll_purge {s : Store} (h : FrAll s) (n : Nat) (keep : List Nat) : FrAll (purge s n keep) := by
+  refine ⟨?_, h.tree, h.mat⟩
+  intro k x hx
+  simp only [purge, mem, upd] at hx
+  split at hx
+  · next e => subst e; exact h.ns _ x (List.mem_filter.mp hx).1
+  · exact h.ns k x hx
+
+theorem mergeKeys_sub' : ∀ (xs acc : List Nat) (k : Nat), k ∈ mergeKeys acc xs → k ∈ acc ∨ k ∈ xs
+  | [], acc, k, h => Or.inl (by simpa [mergeKeys] using h)
+  | x :: xs, acc, k, h => by
+    simp only [mergeKeys] at h
+    split at h
+    · rcases mergeKeys_sub' xs acc k h with h | h
+      · exact Or.inl h
+      · exact Or.inr (by simp [h])
+    · rcases mergeKeys_sub' xs (acc ++ [x]) k h with h | h
+      · simp at h
+        rcases h with h | h
+        · exact Or.inl h
+        · exact Or.inr (by simp [h])
+      · exact Or.inr (by simp [h])
+
+
 end DendroModel.C11.Fresh
